@@ -171,6 +171,72 @@ def scan_reads(ck, prog, config, clause_c, clause_f):
               config=config)
 
 
+def scan_loop_exits(ck, prog, config, clause):
+    """the chunk loop of the validity scan classifies every chunk: early exits only for a detached header,
+    returns inside the loop are error returns, a chunk is skipped only when it is the empty dictionary"""
+    vc = prog.need_func('validate_checksums')
+    g = prog.cfg(vc)
+    loops = [s for s in walk_stmts(vc.body) if s.k == 'for']
+    ck.require(len(loops) >= 1, 'validate_checksums: chunk loop not found')
+    main_loop = loops[0]
+    # early exits of the chunk loop
+    n_exits = 0
+
+    def direct_stmts(body):
+        """statements of the loop body excluding nested loops' bodies"""
+        out = []
+        stack = [body]
+        while stack:
+            s = stack.pop()
+            if s is None:
+                continue
+            if isinstance(s, list):
+                stack.extend(s)
+                continue
+            out.append(s)
+            if s.k in ('while', 'do', 'for'):
+                continue
+            for attr in ('body', 'then', 'els'):
+                x = getattr(s, attr)
+                if x is not None:
+                    stack.append(x)
+        return out
+    for s in direct_stmts(main_loop.body):
+        if s.k == 'break':
+            n_exits += 1
+            nd = [n for n in g.nodes if n.stmt is s]
+            okb = False
+            if nd:
+                for b, lab in must_pass_edges(g, nd[0]):
+                    op, l, r = atom_cmp(b.e, lab)
+                    if last_field(l) == 'header_only' and op == '!=' and const_value(r) == 0:
+                        okb = True
+            ck.ob(clause, 'R2.loop-exit', vc.name, 'break@%d' % n_exits, okb,
+                  'early exit of the chunk loop only for a detached header (header_only)' if okb else
+                  'the chunk loop is left early without the header_only condition: later chunks are never classified',
+                  s.file, s.line, config=config)
+    for s in walk_stmts(main_loop.body):
+        if s.k == 'return':
+            n_exits += 1
+            v = const_value(s.e) if s.e is not None else None
+            ck.ob(clause, 'R2.loop-exit', vc.name, 'return@%d' % n_exits, v == 0,
+                  'return inside the chunk loop is an error return (0)' if v == 0 else
+                  'non-error return inside the chunk loop (%s): later chunks are never classified' % show(s.e),
+                  s.file, s.line, config=config)
+        if s.k in ('continue', 'goto') and s in direct_stmts(main_loop.body):
+            nd = [n for n in g.nodes if n.stmt is s]
+            okc = False
+            if nd:
+                for b, lab in must_pass_edges(g, nd[0]):
+                    op, l, r = atom_cmp(b.e, lab)
+                    if last_field(l) == 'length' and op == '==' and const_value(r) == 0:
+                        okc = True
+            ck.ob(clause, 'R2.loop-exit', vc.name, 'continue', okc,
+                  'a chunk is skipped only when it is the empty dictionary entry (length == 0)' if okc else
+                  'a chunk can be skipped by the scan without being classified', s.file, s.line, config=config)
+    ck.min_instances('exits of the chunk loop', n_exits, 3)
+
+
 def run(ctx):
     ck = ctx.check
     ck.explanation = (
@@ -220,67 +286,10 @@ def run(ctx):
                       v.node.line if v else fn.line, path=v.path if v else None, config=config)
         scan_reads(ck, prog, config, 'C09-c', 'C09-f')
         # ---- d
+        scan_loop_exits(ck, prog, config, 'C09-d')
         vc = prog.need_func('validate_checksums')
         g = prog.cfg(vc)
-        loops = [s for s in walk_stmts(vc.body) if s.k == 'for']
-        ck.require(len(loops) >= 1, 'validate_checksums: chunk loop not found')
-        main_loop = loops[0]
-        # early exits of the chunk loop
-        n_exits = 0
-
-        def direct_stmts(body):
-            """statements of the loop body excluding nested loops' bodies"""
-            out = []
-            stack = [body]
-            while stack:
-                s = stack.pop()
-                if s is None:
-                    continue
-                if isinstance(s, list):
-                    stack.extend(s)
-                    continue
-                out.append(s)
-                if s.k in ('while', 'do', 'for'):
-                    continue
-                for attr in ('body', 'then', 'els'):
-                    x = getattr(s, attr)
-                    if x is not None:
-                        stack.append(x)
-            return out
-        for s in direct_stmts(main_loop.body):
-            if s.k == 'break':
-                n_exits += 1
-                nd = [n for n in g.nodes if n.stmt is s]
-                okb = False
-                if nd:
-                    for b, lab in must_pass_edges(g, nd[0]):
-                        op, l, r = atom_cmp(b.e, lab)
-                        if last_field(l) == 'header_only' and op == '!=' and const_value(r) == 0:
-                            okb = True
-                ck.ob('C09-d', 'R2.loop-exit', vc.name, 'break@%d' % n_exits, okb,
-                      'early exit of the chunk loop only for a detached header (header_only)' if okb else
-                      'the chunk loop is left early without the header_only condition: later chunks are never classified',
-                      s.file, s.line, config=config)
-        for s in walk_stmts(main_loop.body):
-            if s.k == 'return':
-                n_exits += 1
-                v = const_value(s.e) if s.e is not None else None
-                ck.ob('C09-d', 'R2.loop-exit', vc.name, 'return@%d' % n_exits, v == 0,
-                      'return inside the chunk loop is an error return (0)' if v == 0 else
-                      'non-error return inside the chunk loop (%s): later chunks are never classified' % show(s.e),
-                      s.file, s.line, config=config)
-            if s.k in ('continue', 'goto') and s in direct_stmts(main_loop.body):
-                nd = [n for n in g.nodes if n.stmt is s]
-                okc = False
-                if nd:
-                    for b, lab in must_pass_edges(g, nd[0]):
-                        op, l, r = atom_cmp(b.e, lab)
-                        if last_field(l) == 'length' and op == '==' and const_value(r) == 0:
-                            okc = True
-                ck.ob('C09-d', 'R2.loop-exit', vc.name, 'continue', okc,
-                      'a chunk is skipped only when it is the empty dictionary entry (length == 0)' if okc else
-                      'a chunk can be skipped by the scan without being classified', s.file, s.line, config=config)
-        ck.min_instances('exits of the chunk loop', n_exits, 3)
+        main_loop = [s for s in walk_stmts(vc.body) if s.k == 'for'][0]
 
         class Store(FactRule):
             name = 'R3.verdict-store'
